@@ -69,7 +69,7 @@ PROPS = {
         technique='Kani/CBMC bounded model checking of each real setter from an arbitrary valid buffer with an arbitrary valid argument, result compared bytewise with an RFC 5.3 recomposition oracle',
         level_text='For every valid buffer text and every valid new value (or removal) within the byte bounds CBMC proves that the buffer after set_scheme/set_authority/set_path/set_query/set_fragment is bytewise the RFC 3986 5.3 recomposition of the expected five components with exactly the three documented disambiguations (which implies read-back of the target and byte-identity of the other four) and that no call panics, overflows or indexes out of bounds; bounded.',
         level_note=BMC_NOTE + ' Heap: buffers have concrete capacity 40 and Vec::resize is replaced by an in-capacity version that asserts new_len <= capacity.',
-        outside='buffers beyond 6-8 bytes and arguments beyond 2-4 bytes; reallocation of the buffer',
+        outside='buffers beyond 4 bytes (quick) / 5-8 bytes (thorough stretch) and arguments beyond 2-4 bytes; reallocation of the buffer',
         stubs=[TABLE_STUB, 'Vec::resize -> in-capacity version asserting new_len <= capacity (CAP 40)', 'mem::forget at the end of each harness (drop glue not modelled)'],
         assumptions=['an empty path after an authority may be rendered empty or as "/" (both valid and unambiguous; the setters that touch path/authority write "/")',
                      'oracle: harness/src/oracle.rs::{split_ref,recompose_with}'],
@@ -78,31 +78,31 @@ PROPS = {
         technique='Kani/CBMC bounded model checking, inductive: one safe mutator call from an arbitrary valid buffer with an arbitrary valid argument, post-state re-validated against the grammar table; handle invariant for sequences',
         level_text='Well-formedness is an inductive invariant: for every valid buffer text and every valid argument within the byte bounds, after one call of each setter, path edit (push/pop/clear/symbolic_push/symbolic_append/normalize) or authority edit the text is again accepted by the type grammar (table twin of the current automaton), is UTF-8, and no call panics, overflows or indexes out of bounds; the path/authority handle is shown to view exactly the fresh path()/authority() after each call, so sequences through one handle reduce to sequences of fresh handles (2-op same-handle harness as a direct cross-check in the thorough tier). In-place resolve is not covered (C06).',
         level_note=BMC_NOTE + ' Heap: buffers have concrete capacity 40; Vec::resize is replaced by an in-capacity version that asserts new_len <= capacity (a buffer that starts empty gets one allocation of that capacity).',
-        outside='buffers beyond 5-8 bytes, arguments beyond 2-4 bytes, reallocation, spilled SmallVecs (>16 segments / >512 bytes), in-place resolve(), constructors default/from_scheme (covered only through C13/C05 harnesses)',
+        outside="buffers beyond 3-5 bytes, arguments beyond 1-3 bytes, reallocation, spilled SmallVecs, in-place resolve(); in the quick tier: set_path, push, pop, set_userinfo, set_host and the constructors only (the other mutators' harnesses are listed under C04 in the thorough tier and decide C05/C10/C11/C09 in both)",
         stubs=[TABLE_STUB, 'Vec::resize -> in-capacity version (asserts)', 'SmallVec::{push,extend_from_slice} -> pointer-loop versions asserting no spill; SmallVec::try_grow -> panic', 'mem::forget at harness end'],
         assumptions=['one inductive step per mutator; the invariant is: text accepted by the type grammar'],
     ),
     'C07': dict(
         technique='Kani/CBMC bounded model checking of the real PartialEq/Ord impls on pairs against a canonical-form oracle (decoded octets, dot-free segment lists)',
-        level_text='For all pairs of component values within the byte bounds (fully symbolic pairs) and for all (symbolic value x listed representative) pairs of paths, authorities and references, CBMC proves a == b exactly when the canonical forms are equal (which makes equality an equivalence relation on the explored set), symmetric, and that no comparison panics; bounded, and for composite types restricted to one symbolic operand against an explicit list of representatives.',
+        level_text='For all pairs of component values within the byte bounds (fully symbolic pairs of segments, hosts, IRI segments <= 3-4 bytes each incl. every escaped octet; schemes and ports <= 4 bytes) and for (authority <= 6 bytes) x (listed representatives) CBMC proves a == b exactly when the canonical forms (percent-decoded octets; literal scheme/port) are equal, symmetric, and that no comparison panics. Path and whole-reference equality are the derived/hand-written composition of these with the normalized-segment sequence decided under C09; their direct harnesses (value <= 4-5 bytes x listed representatives) take 17-35 min and 16-30 GB each and are stretch harnesses of the thorough tier whose completion is reported in the evidence.',
         level_note=BMC_NOTE + ' Fully symbolic pairs of paths/URIs do not fit (two SmallVec normalisations); whole-URI equality is additionally justified structurally: it is the derived PartialEq of the parts() struct, whose fields are decided by C02 and by the component-level harnesses.',
-        outside='component pairs beyond 4-6 bytes each; composite pairs other than (value <= 4-6 bytes) x (listed representatives); triples (transitivity follows from agreement with an equivalence oracle only on the explored pairs)',
+        outside='component pairs beyond 3-6 bytes each; path / reference pairs in the quick tier (thorough stretch only, and only against listed representatives); triples',
         stubs=[TABLE_STUB, 'SmallVec::push -> pointer-loop version asserting no spill; SmallVec::try_grow -> panic'],
         assumptions=['oracle: percent-decoded octets for user info/host/segment/query/fragment, literal scheme and port, RFC 5.2.4/Errata 4547 dot-free segment list'],
     ),
     'C08': dict(
         technique='Kani/CBMC bounded model checking of the real Eq/Ord/Hash impls: ordering against the lexicographic order of canonical forms, hashing observed as the recorded write stream of a harness Hasher',
-        level_text='On the same pairs as C07: cmp equals the oracle order (so it is a total order consistent with equality), partial_cmp = Some(cmp), and equal values feed byte-identical data to any hasher. On single values up to the bound: a URI/IRI, the same text seen as a reference, its IRI-family views and its owned form compare equal, order Equal and produce identical hash streams, which is the Borrow contract hashed and ordered collections rely on; the std collections themselves are not executed.',
+        level_text='On pairs of component values and (authority x representative) pairs: cmp equals the lexicographic order of the canonical forms (a total order consistent with equality), partial_cmp = Some(cmp), and equal values feed a recording hasher byte-identical data (compared write by write). The Borrow-contract harnesses (a URI/IRI vs the same text as a reference, owned vs borrowed: identical hash streams, equal, ordered Equal) and path-level Ord/Hash exist only in the thorough tier as stretch harnesses (20+ min, 25-40 GB each); the std collections themselves are not executed.',
         level_note=BMC_NOTE + ' HashMap/BTreeMap behaviour given the Borrow contract is trusted (hashbrown under CBMC is out of reach).',
-        outside='as C07; lookups in real collections',
+        outside='as C07; the cross-view hash/eq harnesses in the quick tier (thorough stretch only); lookups in real collections',
         stubs=[TABLE_STUB, 'SmallVec::push/try_grow as C07'],
         assumptions=['hash observation: a Hasher that records write() calls (write_u8 etc. fall back to write)'],
     ),
     'C09': dict(
         technique='Kani/CBMC bounded model checking of normalized_segments / normalized / in-place normalize against an RFC 3986 5.2.4 + Errata 4547 segment-stack oracle',
-        level_text='For every path within the byte bound CBMC proves the normalized-segment iterator yields exactly the oracle sequence (each item a sub-slice of the input, len() exact), normalized() renders it with the trailing slash of a final dot segment, in-place normalize() rewrites the path to it (both modulo the documented shield, both without removable dot segments left, absolute/relative preserved), and normalising an embedded path leaves scheme, authority, query and fragment byte-identical and the reference valid; bounded. Paths beyond the 16-segment / 512-byte inline buffers are NOT covered (spill asserted unreachable by the stubs).',
+        level_text="Quick tier: for every path within the bound (all paths <= 5 bytes; all paths <= 7 bytes over the alphabet {'.','/','a'}, i.e. every mixture of dot, parent, empty and ordinary segments) CBMC proves the normalized-segment iterator yields exactly the RFC 5.2.4 / Errata 4547 sequence, each item a sub-slice of the input, with an exact len(). Thorough tier adds normalized(), in-place normalize() and normalisation of an embedded path (exact expected text: same scheme/authority/query/fragment, the path the rendering of that sequence, shielded where needed, valid): these cost 16-22 min and 23-27 GB per harness whatever the bound, so they are stretch harnesses whose completion is reported in the evidence. Paths beyond the 16-segment / 512-byte inline buffers are NOT covered (spill asserted unreachable by the stubs).",
         level_note=BMC_NOTE + ' Heap: buffers have concrete capacity 40; Vec::resize is replaced by an in-capacity version that asserts new_len <= capacity (a buffer that starts empty gets one allocation of that capacity).',
-        outside='paths beyond 5-6 bytes; more than 16 segments or 512 bytes (SmallVec spill paths are not verified)',
+        outside='paths beyond 5 bytes (7 over the dot alphabet); in the quick tier the rendering functions normalized()/normalize() (thorough tier only); more than 16 segments or 512 bytes (SmallVec spill paths are not verified)',
         stubs=[TABLE_STUB, 'SmallVec::{push,extend_from_slice} -> pointer-loop versions asserting no spill; try_grow -> panic', 'Vec::resize / <[u8]>::to_vec -> in-capacity versions'],
         assumptions=['a single leading "." in front of an empty or colon-bearing first segment is a shield; sequences are compared modulo it'],
     ),
@@ -110,15 +110,15 @@ PROPS = {
         technique='Kani/CBMC bounded model checking of each path edit from an arbitrary valid reference / path buffer against a list-semantics oracle',
         level_text='For every valid reference (or stand-alone path) and every valid segment argument within the byte bounds CBMC proves that push/pop/clear/symbolic_push/symbolic_append produce exactly the expected segment sequence (modulo the shield), keep the path absolute or relative, leave scheme, authority, query and fragment byte-identical, leave a valid text, never panic or overflow, and that the handle views exactly the new path afterwards; bounded, one edit per harness (sequences via the handle invariant, C04).',
         level_note=BMC_NOTE + ' Heap: buffers have concrete capacity 40; Vec::resize is replaced by an in-capacity version that asserts new_len <= capacity (a buffer that starts empty gets one allocation of that capacity).',
-        outside='references beyond 5-8 bytes, segments beyond 2-3 bytes, appended paths beyond 4 bytes, reallocation',
+        outside='references beyond 4-5 bytes (quick) / 5-6 bytes (thorough stretch), segments beyond 2 bytes, appended paths beyond 4 bytes, reallocation',
         stubs=[TABLE_STUB, 'Vec::resize -> in-capacity version (asserts)'],
         assumptions=['oracle: harness/src/oracle.rs::{list_pop,symbolic_step,lists_equal_mod_shield}; a path that follows an authority is absolute even when empty'],
     ),
     'C11': dict(
         technique='Kani/CBMC bounded model checking of each authority edit from an arbitrary valid reference with an authority, result compared bytewise with a section 3.2 recomposition; handle invariant',
-        level_text='For every valid reference with an authority and every valid new user info / host / port (or removal) within the byte bounds CBMC proves the buffer afterwards is bytewise the original with exactly that sub-component replaced, is valid, and that the handle views exactly the authority a fresh authority() returns; a two-op harness with symbolic op choice through ONE handle checks sequences directly (thorough tier); bounded.',
+        level_text='For every valid reference with an authority and every valid new user info / host / port (set or removed; one harness per operation and per set/remove) within the byte bounds CBMC proves the buffer afterwards is bytewise the original with exactly that sub-component replaced (compared in place with the section 3.2 recomposition), is valid, and that the handle views exactly the authority a fresh authority() returns. Quick bounds are 3-4 bytes of text and 1-2 bytes of argument because one authority edit costs 8-21 GB and 5-15 min of CBMC whatever is asserted afterwards; the thorough tier adds 4-6 byte texts and a two-op harness with symbolic op choice through ONE handle compared with the same ops through fresh handles (stretch).',
         level_note=BMC_NOTE + ' Heap: buffers have concrete capacity 40; Vec::resize is replaced by an in-capacity version that asserts new_len <= capacity (a buffer that starts empty gets one allocation of that capacity).',
-        outside='references beyond 7-10 bytes, arguments beyond 2-4 bytes, sequences longer than two through one handle',
+        outside='references beyond 3-4 bytes (quick) / 6 bytes (thorough stretch), arguments beyond 1-2 bytes, sequences longer than two through one handle',
         stubs=[TABLE_STUB, 'Vec::resize -> in-capacity version (asserts)'],
         assumptions=['oracle: harness/src/oracle.rs::split_auth + recomposition'],
     ),
@@ -132,9 +132,9 @@ PROPS = {
     ),
     'C16': dict(
         technique='Kani/CBMC bounded model checking of base() against a last-slash oracle and of suffix() against a normalised-prefix oracle (value symbolic x listed prefixes)',
-        level_text='base(): for every valid reference within the byte bound the result is exactly the sub-slice up to and including the last slash of the path (or up to the path start), valid for the same kind and without query/fragment. suffix(): for (value <= 4-5 bytes) x (listed prefixes), Some exactly when both are absolute or both relative and the prefix normalised segments lead the value ones (decoded comparison), the result being the remaining segments; Uri::suffix additionally requires equal scheme and authority and returns the value own query/fragment (pointer identity); bounded.',
+        level_text='base(): for every valid reference within the byte bound (both families) the result is exactly the sub-slice up to and including the last slash of the path (or up to the path start), valid for the same kind and without query/fragment (quick tier). suffix(): harnesses exist for (value <= 4-5 bytes) x (listed prefixes) - Some exactly when both are absolute or both relative and the prefix normalised segments lead the value ones (decoded comparison), the result the remaining segments; Uri::suffix needing equal scheme and authority and returning the value own query/fragment - but each costs more than 30 min of CBMC (two SmallVec normalisations), so they are thorough-tier stretch harnesses whose completion is reported in the evidence; in the quick tier suffix() is NOT decided.',
         level_note=BMC_NOTE,
-        outside='base() beyond 9-10 bytes; suffix() beyond (value <= 5) x (listed prefixes); the reconstruction law only through the oracle list',
+        outside='base() beyond 9-10 bytes; suffix() entirely in the quick tier, and beyond (value <= 5) x (listed prefixes) in the thorough tier',
         stubs=[TABLE_STUB, 'Vec::resize -> in-capacity version', 'SmallVec::push/try_grow as C09'],
         assumptions=['prefix representatives: "", "/", "a", "/a", "a/b", "/a/..", "%61", ".."'],
     ),
@@ -148,7 +148,7 @@ PROPS = {
     ),
     'C19': dict(
         technique='Kani/CBMC bounded model checking of as_pct_str().bytes() against a percent-decoding oracle for the ten component types, and of chars()/len()/== str on well-formed octets',
-        level_text='For every valid component within the byte bound CBMC proves the view is the component text and its octet iterator yields exactly the bytes with each %XX replaced by that octet (no UTF-8 involved, every octet pattern incl. FF, C0 80, ED A0 80). For chars(), len() and comparison with plain text it proves totality and agreement with the UTF-8 text of the decoded octets on the inputs whose decoded octets are well-formed UTF-8. The ill-formed / overlong class is a KNOWN FINDING (pct-str 2.0 unwraps the UTF-8 decoding; utf8-decode accepts overlong forms) and is excluded from the solver query while the finding is open; decode() (String building) is not run.',
+        level_text='For every valid component of the ten component types within the byte bound CBMC proves the percent-encoded view is the component text itself and its octet iterator yields exactly the bytes with each %XX replaced by that octet (no UTF-8 involved; every octet pattern incl. FF, C0 80, ED A0 80). chars(), len() and comparison with plain text are decided only in the thorough tier (19+ min per harness) and only on inputs whose decoded octets are well-formed UTF-8: the ill-formed / overlong class is a KNOWN FINDING (pct-str 2.0 unwraps the UTF-8 decoding; utf8-decode accepts overlong forms) excluded from the solver query while the finding is open; decode() (String building) is not run.',
         level_note=BMC_NOTE + ' The panic and the overlong acceptance live in the pct-str / utf8-decode dependencies, reached through iref PctStr::new_unchecked view.',
         outside='components beyond 5-8 bytes; PctStr::decode / into_pct_string (heap building); values whose decoded octets are not well-formed UTF-8 for the chars-based operations (known finding)',
         stubs=['big-DFA Host: table twin as validity test'],
